@@ -205,7 +205,7 @@ Proof. intros k m. reflexivity. Qed.
 Theorem gen_restoreTask_option_agrees : forall skip k m c,
   Gen.OptTasks.restoreTask_option skip k m = t_option (restore_task false k m c).
 Proof.
-  intros skip k m c. unfold Gen.OptTasks.restoreTask_option, restore_task. simpl.
+  intros skip k m c. unfold Gen.OptTasks.restoreTask_option, restore_task, om_get. simpl.
   destruct (nlist_get k m); reflexivity.
 Qed.
 
